@@ -180,6 +180,13 @@ def _(c):
         return If(old.excluding, And(len(RP.items_of(f.result)) == 0, f.unchanged()), entered)
     c.ensures("C06.enter-script-once", post, props=("C06", "C01", "C03"))
 
+    def fresh_list(f):
+        """Callers extend the returned list (retraction commands of the entering move), so it must be a new list -- never
+        the configured script object itself, which would then grow with every episode and survive every reset."""
+        scripts = (f.self.exitingExcludedRegionGcode, f.self.enteringExcludedRegionGcode)
+        return all(f.result is not s_ for s_ in scripts if s_ is not None)
+    c.ensures("C06.result-does-not-alias-the-configured-script", fresh_list, props=("C06", "C10", "C15"))
+
 
 def script_is(result, script):
     """result is exactly the configured script (one splice) or empty when none is configured."""
@@ -502,7 +509,7 @@ def _(c):
     c.ensures("C04.forwarded-move-pushes-file-amount", push_exact, props=("C04",))
 
     c.ensures("C05.retraction-depth-coupling", lambda f: depth_clause(f, is_move, plm_run), props=("C05",))
-    c.ensures("Inv-preserved", lambda f: inv_all(f.self, plm_run(f)[0]), props=("C01", "C02", "C03", "C04", "C05", "C14", "C15", "C06"),
+    c.ensures("Inv-preserved", lambda f: inv_all(f.self, plm_run(f)[0]), props=("C01", "C02", "C03", "C04", "C05", "C14", "C15", "C06", "C08"),
               cases={"relative-positioning": lambda f: And(f.self.excluding, Not(f.self.position.X_AXIS.absoluteMode)),
                      "relative-extrusion": lambda f: Not(f.self.position.E_AXIS.absoluteMode)})
     c.ensures("C09.result-shape", lambda f: result_shape_ok(f.result), props=("C09",))
